@@ -183,7 +183,7 @@ func genC12(t *rapid.T) CaseRT {
 	for i := range m.Entities {
 		m.Entities[i].ID = fmt.Sprintf("e%d", i)
 	}
-	return CaseRT{Zone: zone, Msg: m}
+	return CaseRT{Zone: zone, Msg: m, Primers: genPrimers(t, zone, m)}
 }
 
 func TestC12(t *testing.T) { rapid.Check(t, propC12) }
